@@ -70,7 +70,7 @@ def dbri(out, mc, pending):
         ob.status = "inconclusive"
         ob.detail = "%d candidates" % len(fn)
         return
-    ex = symex.Executor(fns, max_visits=3)
+    ex = symex.Executor(fns, max_visits=symex.visits(3))
     fails = []
     n = 0
     for p in ex.run(fn[0]):
